@@ -349,3 +349,15 @@ Example tb_dom_example_values :
   tb_path (tb_blocks a) (tb_blocks b) = PValues /\
   tb_dom (mk_mcfg false false false false) (mk_eopts false false false false) a b = true.
 Proof. split; reflexivity. Qed.
+
+(* with the correct mask the implementation model itself is symmetric *)
+Lemma tb_impl_sym o a b :
+  tb_wf a && tb_wf b && nat_dom a b = true -> tb_wf b && tb_wf a && nat_dom b a = true ->
+  M_tb_equals mcfg_correct o a b = M_tb_equals mcfg_correct o b a.
+Proof.
+  intros H1 H2.
+  assert (D : forall x y, tb_wf x && tb_wf y && nat_dom x y = true -> tb_dom mcfg_correct o x y = true).
+  { intros x y H. unfold tb_dom. apply andb_prop in H as [Hw Hn]. rewrite Hw, Hn, mask_dom_correct. reflexivity. }
+  rewrite (tb_refines _ _ _ _ (D _ _ H1)), (tb_refines _ _ _ _ (D _ _ H2)).
+  unfold S_tb_equals. rewrite (Z.eqb_sym (tb_oid a)), (S_tb_content_sym o a b). reflexivity.
+Qed.
